@@ -227,9 +227,16 @@ def find_peaks(data, threshold, *, box_size=3, footprint=None, mask=None,
         if not callable(centroid_func):
             raise TypeError('centroid_func must be a callable object')
 
+        # NaN pixels were replaced by the data minimum only for the peak
+        # search; they must not contribute to the centroids
+        centroid_mask = mask
+        if np.any(nan_mask):
+            centroid_mask = (nan_mask if mask is None
+                             else np.logical_or(mask, nan_mask))
+
         x_centroids, y_centroids = centroid_sources(
             data, x_peaks, y_peaks, box_size=box_size,
-            footprint=footprint, error=error, mask=mask,
+            footprint=footprint, error=error, mask=centroid_mask,
             centroid_func=centroid_func)
 
         table['x_centroid'] = x_centroids
